@@ -27,7 +27,7 @@ type Conn struct {
 	cond *sync.Cond
 
 	// server -> client
-	segs      [][]byte // queued segments; one Read returns at most one
+	segs      []seg    // queued segments; one Read returns at most one
 	eof       bool     // after the queue is drained Read returns io.EOF
 	readErr   error    // after the queue is drained Read returns this error
 	reads     int      // number of Read calls that returned data
@@ -38,6 +38,7 @@ type Conn struct {
 	wbytes     strings.Builder // concatenation of all written bytes
 	nwrites    int
 	failWriteN int   // >0: the n-th Write call fails (1-based)
+	shortFail  int   // >=0: the next Write takes this many bytes and fails, and so does every later one; -1 off
 	writeErr   error // every Write fails with this
 	gated      bool  // when true Write blocks until credit > 0
 	credit     int   // writes allowed while gated
@@ -47,12 +48,19 @@ type Conn struct {
 
 	closed      bool // client called Close
 	closeCalls  int
+	closeErr    error // what Close reports (the socket is closed all the same)
 	onWrite     func(data string) // optional callback, called outside the lock
 	writeNotify chan struct{}
 }
 
+// seg is one queued read result: data, or (b == nil) an error returned once, after which reading goes on.
+type seg struct {
+	b   []byte
+	err error
+}
+
 func newConn() *Conn {
-	c := &Conn{writeNotify: make(chan struct{}, 1)}
+	c := &Conn{writeNotify: make(chan struct{}, 1), shortFail: -1}
 	c.cond = sync.NewCond(&c.mu)
 	return c
 }
@@ -73,12 +81,16 @@ func (c *Conn) Read(p []byte) (int, error) {
 				c.segs = nil
 				continue
 			}
-			seg := c.segs[0]
-			n := copy(p, seg)
-			if n == len(seg) {
+			sg := c.segs[0]
+			if sg.b == nil {
+				c.segs = c.segs[1:]
+				return 0, sg.err
+			}
+			n := copy(p, sg.b)
+			if n == len(sg.b) {
 				c.segs = c.segs[1:]
 			} else {
-				c.segs[0] = seg[n:]
+				c.segs[0].b = sg.b[n:]
 			}
 			c.reads++
 			return n, nil
@@ -140,6 +152,21 @@ func (c *Conn) Write(p []byte) (int, error) {
 	if c.gated {
 		c.credit--
 	}
+	if c.shortFail >= 0 {
+		n := c.shortFail
+		if n > len(p) {
+			n = len(p)
+		}
+		c.shortFail = -1
+		c.writeErr = errors.New("ircsim: connection reset by peer")
+		if n > 0 {
+			c.writes = append(c.writes, WriteRec{Data: string(p[:n]), At: time.Now()})
+			c.wbytes.WriteString(string(p[:n]))
+		}
+		err := c.writeErr
+		c.mu.Unlock()
+		return n, err
+	}
 	c.nwrites++
 	if c.failWriteN > 0 && c.nwrites >= c.failWriteN {
 		c.failWriteN = 0
@@ -168,9 +195,18 @@ func (c *Conn) Close() error {
 	c.mu.Lock()
 	c.closed = true
 	c.closeCalls++
+	err := c.closeErr
 	c.cond.Broadcast()
 	c.mu.Unlock()
-	return nil
+	return err
+}
+
+// FailClose makes Close report err (as a TLS connection does whose peer is gone and cannot be
+// sent close_notify); the connection is closed all the same.
+func (c *Conn) FailClose(err error) {
+	c.mu.Lock()
+	c.closeErr = err
+	c.mu.Unlock()
 }
 
 type addr string
@@ -205,7 +241,23 @@ func (c *Conn) Send(data string) {
 		return
 	}
 	c.mu.Lock()
-	c.segs = append(c.segs, []byte(data))
+	c.segs = append(c.segs, seg{b: []byte(data)})
+	c.cond.Broadcast()
+	c.mu.Unlock()
+}
+
+// TempError is a transient network error (Timeout() and Temporary() are true).
+type TempError struct{}
+
+func (TempError) Error() string   { return "ircsim: resource temporarily unavailable" }
+func (TempError) Timeout() bool   { return true }
+func (TempError) Temporary() bool { return true }
+
+// SendErrOnce queues an error that one Read call returns (after the segments queued before it
+// were consumed); the segments queued after it remain readable.
+func (c *Conn) SendErrOnce(err error) {
+	c.mu.Lock()
+	c.segs = append(c.segs, seg{err: err})
 	c.cond.Broadcast()
 	c.mu.Unlock()
 }
@@ -221,11 +273,11 @@ func (c *Conn) SendSegmented(data string, cuts []int) {
 		if k <= prev || k >= len(data) {
 			continue
 		}
-		c.segs = append(c.segs, []byte(data[prev:k]))
+		c.segs = append(c.segs, seg{b: []byte(data[prev:k])})
 		prev = k
 	}
 	if prev < len(data) {
-		c.segs = append(c.segs, []byte(data[prev:]))
+		c.segs = append(c.segs, seg{b: []byte(data[prev:])})
 	}
 	c.cond.Broadcast()
 	c.mu.Unlock()
@@ -272,6 +324,14 @@ func (c *Conn) FailReadAt(n int) {
 func (c *Conn) FailWriteAt(n int) {
 	c.mu.Lock()
 	c.failWriteN = n
+	c.mu.Unlock()
+}
+
+// ShortFailNext makes the next Write take only its first n bytes and report an error; all later
+// Writes fail.
+func (c *Conn) ShortFailNext(n int) {
+	c.mu.Lock()
+	c.shortFail = n
 	c.mu.Unlock()
 }
 
